@@ -658,6 +658,9 @@ func (g *gen) structType(d int, exported bool) *Ty {
 			tag = pick(g, "xmltag", xmlIndirectTags...)
 			g.feat("xml_indirect_tag")
 		}
+		if strings.Contains(tag, "xml") && ft.mentionsRec(0) && !g.include("no-termination") {
+			tag = "" // recorded finding: the XML encoder model does not terminate on self-referential types
+		}
 		s.Fields = append(s.Fields, Field{Name: name, T: ft, Tag: tag})
 	}
 	return s
